@@ -73,6 +73,8 @@ package logqlengine
 //@   inline
 //@ func (*LabelSet).GetFloat
 //@   inline
+//@ func (*LabelSet).allowDots
+//@   inline
 
 // ---- processors
 
@@ -444,9 +446,61 @@ package logqlengine
 //@   ensures[every-opened-reader-closed] opened() == old(opened())
 
 // Builders and pure helpers on the path: they allocate, but neither open nor close readers.
+// One processor per stage, built by the builder of that stage's kind, in query order.
 //@ func BuildPipeline
-//@   trusted
+//@   capture bs1 = call(buildStage, 0)
+//@   capture bs = call(buildStage, 1)
 //@   modifies *
+//@   ensures[no-stages] len(stages) == 0 ==> ret1 == nil && typeis[*nopProcessor](ret0)
+//@   ensures[single-stage] len(stages) == 1 ==> bs1_called && same(bs1_a0, old(stages[0])) && same(ret0, bs1_r0) && same(ret1, bs1_r1)
+//@   ensures[one-processor-per-stage] len(stages) > 1 && ret1 == nil ==> typeis[*Pipeline](ret0) && len(as[*Pipeline](ret0).Stages) == len(stages)
+//@   loop 0 modifies *
+//@   loop 0 invariant rangeindex+1 <= len(stages) && len(procs) == rangeindex+1 && len(stages) > 1
+//@   loop 0 body_ensures[stage-built-in-order] bs_called && same(bs_a0, head(stages[rangeindex+1])) && bs_r1 == nil && len(procs) == rangeindex+1 && same(procs[rangeindex], bs_r0)
+
+//@ func buildStage
+//@   capture lf = call(buildLineFilter, 0)
+//@   capture js = call(buildJSONExtractor, 0)
+//@   capture lg = call(buildLogfmtExtractor, 0)
+//@   capture rx = call(buildRegexpExtractor, 0)
+//@   capture pt = call(buildPatternExtractor, 0)
+//@   capture up = call(buildUnpackExtractor, 0)
+//@   capture lfm = call(buildLineFormat, 0)
+//@   capture dc = call(buildDecolorize, 0)
+//@   capture lfl = call(buildLabelFilter, 0)
+//@   capture lbf = call(buildLabelFormat, 0)
+//@   capture dr = call(buildDropLabels, 0)
+//@   capture kp = call(buildKeepLabels, 0)
+//@   capture ds = call(buildDistinctFilter, 0)
+//@   modifies *
+//@   ensures[line-filter] typeis[*logql.LineFilter](stage) ==> lf_called && lf_a0 == as[*logql.LineFilter](stage) && same(ret0, lf_r0) && same(ret1, lf_r1)
+//@   ensures[json] typeis[*logql.JSONExpressionParser](stage) ==> js_called && js_a0 == as[*logql.JSONExpressionParser](stage) && same(ret0, js_r0) && same(ret1, js_r1)
+//@   ensures[logfmt] typeis[*logql.LogfmtExpressionParser](stage) ==> lg_called && lg_a0 == as[*logql.LogfmtExpressionParser](stage) && same(ret0, lg_r0) && same(ret1, lg_r1)
+//@   ensures[regexp] typeis[*logql.RegexpLabelParser](stage) ==> rx_called && rx_a0 == as[*logql.RegexpLabelParser](stage) && same(ret0, rx_r0) && same(ret1, rx_r1)
+//@   ensures[pattern] typeis[*logql.PatternLabelParser](stage) ==> pt_called && pt_a0 == as[*logql.PatternLabelParser](stage) && same(ret0, pt_r0) && same(ret1, pt_r1)
+//@   ensures[unpack] typeis[*logql.UnpackLabelParser](stage) ==> up_called && same(ret0, up_r0) && same(ret1, up_r1)
+//@   ensures[line-format] typeis[*logql.LineFormat](stage) ==> lfm_called && lfm_a0 == as[*logql.LineFormat](stage) && same(ret0, lfm_r0) && same(ret1, lfm_r1)
+//@   ensures[decolorize] typeis[*logql.DecolorizeExpr](stage) ==> dc_called && same(ret0, dc_r0) && same(ret1, dc_r1)
+//@   ensures[label-filter] typeis[*logql.LabelFilter](stage) ==> lfl_called && lfl_a0 == as[*logql.LabelFilter](stage) && same(ret0, lfl_r0) && same(ret1, lfl_r1)
+//@   ensures[label-format] typeis[*logql.LabelFormatExpr](stage) ==> lbf_called && lbf_a0 == as[*logql.LabelFormatExpr](stage) && same(ret0, lbf_r0) && same(ret1, lbf_r1)
+//@   ensures[drop] typeis[*logql.DropLabelsExpr](stage) ==> dr_called && dr_a0 == as[*logql.DropLabelsExpr](stage) && same(ret0, dr_r0) && same(ret1, dr_r1)
+//@   ensures[keep] typeis[*logql.KeepLabelsExpr](stage) ==> kp_called && kp_a0 == as[*logql.KeepLabelsExpr](stage) && same(ret0, kp_r0) && same(ret1, kp_r1)
+//@   ensures[distinct] typeis[*logql.DistinctFilter](stage) ==> ds_called && ds_a0 == as[*logql.DistinctFilter](stage) && same(ret0, ds_r0) && same(ret1, ds_r1)
+//@   ensures[unknown-stage-is-an-error] !lf_called && !js_called && !lg_called && !rx_called && !pt_called && !up_called && !lfm_called && !dc_called && !lfl_called && !lbf_called && !dr_called && !kp_called && !ds_called ==> ret1 != nil && typeis[*UnsupportedError](ret1)
+
+// Builders of the parser stages.
+//@ func buildRegexpExtractor
+//@   modifies nothing
+//@   ensures[regexp-and-groups-of-the-stage] ret1 == nil && typeis[*RegexpExtractor](ret0) && as[*RegexpExtractor](ret0).re == stage.Regexp && same(as[*RegexpExtractor](ret0).mapping, stage.Mapping)
+
+//@ func buildUnpackExtractor
+//@   modifies nothing
+//@   ensures ret1 == nil && typeis[*UnpackExtractor](ret0)
+
+//@ func buildPatternExtractor
+//@   capture ps = call(logqlpattern.Parse, 0)
+//@   modifies nothing
+//@   ensures[pattern-of-the-stage] ps_called && ps_a0 == stage.Pattern && (ret1 == nil) == (ps_r1 == nil) && (ret1 == nil ==> typeis[*PatternExtractor](ret0) && same(as[*PatternExtractor](ret0).pattern, ps_r0))
 //@ func (SupportedOps).Supports
 //@   pure
 
@@ -569,3 +623,206 @@ package logqlengine
 //@   loop 0 invariant rangeindex+1 <= len(keys) && i == rangeindex+1
 //@   loop 0 invariant forall(0, len(keys)-1, func(j int) bool { return keys[j] <= keys[j+1] })
 //@   loop 0 body_ensures[renders-pairs-in-that-order] same(k, keys[rangeindex]) && w0_called && w0_a0 == string(k) && w1_called && w1_a0 == strconv.Quote(l.labels[k].AsString())
+
+// ---- C06: parser stages expose exactly the fields of a line and never drop it.
+//
+// json / logfmt / regexp / pattern return the line unchanged and keep it; unpack replaces a packed
+// line by its _entry. A field becomes a label with exactly its value; a line the stage cannot parse
+// is kept and flagged through SetError. The JSON / logfmt / regexp decoders themselves are
+// dependencies: calls into them do not touch the program heap and deliver unconstrained results.
+
+//@ scope json.go
+
+//@ func parseValue
+//@   trusted
+//@   modifies nothing
+
+//@ func decodeStr
+//@   trusted
+//@   modifies nothing
+//@   ensures ret0 != nil
+
+//@ func (*JSONExtractor).Process
+//@   requires set.labels != nil
+//@   capture xe = call(extractExprs, 0)
+//@   capture xs = call(extractSome, 0)
+//@   capture xa = call(extractAll, 0)
+//@   modifies set.labels[*]
+//@   ensures[line-kept-unchanged] ret0 == line && ret1
+//@   ensures[mode-of-the-stage] xe_called == old(len(e.paths) != 0) && xs_called == old(len(e.paths) == 0 && len(e.labels) != 0) && xa_called == old(len(e.paths) == 0 && len(e.labels) == 0)
+//@   ensures[extractor-sees-the-line] (xe_called ==> xe_a1 == line && same(xe_a2, set) && same(xe_a0, e.paths)) && (xs_called ==> xs_a1 == line && same(xs_a2, set) && same(xs_a0, e.labels)) && (xa_called ==> xa_a0 == line && same(xa_a1, set))
+//@   ensures[unparsable-line-is-flagged] (xe_called && xe_r0 != nil) || (xs_called && xs_r0 != nil) || (xa_called && xa_r0 != nil) ==> has(set.labels, logql.ErrorLabel)
+
+//@ func extractExprs
+//@   requires set.labels != nil
+//@   modifies set.labels[*]
+
+//@ func extractExprs$1
+//@   requires set.labels != nil
+//@   logical k logql.Label
+//@   modifies set.labels[*]
+//@   ensures[match-becomes-label] has(set.labels, l) && set.labels[l].AsString() == s && same(set.labels[l], pcommon.NewValueStr(s))
+//@   ensures[other-labels-untouched] k != l ==> has(set.labels, k) == old(has(set.labels, k)) && same(set.labels[k], old(set.labels[k]))
+
+//@ func extractSome
+//@   requires set.labels != nil
+//@   modifies set.labels[*]
+
+//@ func extractSome$1
+//@   requires set.labels != nil
+//@   capture pv = call(parseValue, 0)
+//@   capture sk = call(d.Skip, 0)
+//@   logical k logql.Label
+//@   modifies set.labels[*]
+//@   ensures[unrequested-field-skipped] !has(labels, old(logql.Label(key))) ==> sk_called && !pv_called
+//@   ensures[unrequested-field-skipped-2] !has(labels, old(logql.Label(key))) ==> same(ret0, sk_r0)
+//@   ensures[requested-field-becomes-label] has(labels, old(logql.Label(key))) && pv_r2 == nil && pv_r1 ==> ret0 == nil && has(set.labels, old(logql.Label(key))) && same(set.labels[old(logql.Label(key))], pv_r0)
+//@   ensures[null-is-skipped] has(labels, old(logql.Label(key))) && pv_r2 == nil && !pv_r1 ==> ret0 == nil
+//@   ensures[bad-value-is-an-error] has(labels, old(logql.Label(key))) && pv_r2 != nil ==> ret0 != nil
+//@   ensures[other-labels-untouched] (k != old(logql.Label(key)) || !(has(labels, old(logql.Label(key))) && pv_r2 == nil && pv_r1)) ==> has(set.labels, k) == old(has(set.labels, k)) && same(set.labels[k], old(set.labels[k]))
+
+//@ func extractAll
+//@   requires set.labels != nil
+//@   modifies set.labels[*]
+
+//@ func extractAll$1
+//@   requires set.labels != nil
+//@   capture pv = call(parseValue, 0)
+//@   logical k logql.Label
+//@   modifies set.labels[*]
+//@   ensures[field-becomes-label] pv_r2 == nil && pv_r1 ==> ret0 == nil && has(set.labels, logql.Label(otelstorage.KeyToLabel(key))) && same(set.labels[logql.Label(otelstorage.KeyToLabel(key))], pv_r0)
+//@   ensures[null-is-skipped] pv_r2 == nil && !pv_r1 ==> ret0 == nil
+//@   ensures[bad-value-is-an-error] pv_r2 != nil ==> ret0 != nil
+//@   ensures[other-labels-untouched] (k != logql.Label(otelstorage.KeyToLabel(key)) || !(pv_r2 == nil && pv_r1)) ==> has(set.labels, k) == old(has(set.labels, k)) && same(set.labels[k], old(set.labels[k]))
+
+//@ scope unpack.go
+
+//@ func (*UnpackExtractor).Process
+//@   requires set.labels != nil
+//@   capture pe = call(parsePackEntry, 0)
+//@   modifies set.labels[*]
+//@   ensures[never-drops] ret1
+//@   ensures[entry-replaces-line] pe_called && pe_a0 == line && same(pe_a1, set) && (pe_r1 == nil ==> ret0 == pe_r0)
+//@   ensures[unparsable-line-kept-and-flagged] pe_r1 != nil ==> ret0 == line && has(set.labels, logql.ErrorLabel)
+
+//@ func parsePackEntry
+//@   requires set.labels != nil
+//@   modifies set.labels[*]
+
+//@ func parsePackEntry$1
+//@   requires set.labels != nil
+//@   capture nx = call(d.Next, 0)
+//@   capture str = call(d.Str, 0)
+//@   capture sk = call(d.Skip, 0)
+//@   capture vl = call(logql.IsValidLabel, 0)
+//@   logical k logql.Label
+//@   modifies set.labels[*], line
+//@   ensures[non-string-fields-ignored] nx_r0 != jx.String ==> sk_called && same(ret0, sk_r0) && line == old(line)
+//@   ensures[entry-becomes-the-line] nx_r0 == jx.String && str_r1 == nil && old(string(key)) == "_entry" ==> ret0 == nil && line == str_r0
+//@   ensures[string-field-becomes-label] nx_r0 == jx.String && str_r1 == nil && old(string(key)) != "_entry" && vl_r0 == nil ==> ret0 == nil && line == old(line) && has(set.labels, old(logql.Label(key))) && same(set.labels[old(logql.Label(key))], pcommon.NewValueStr(str_r0))
+//@   ensures[invalid-label-name-is-an-error] nx_r0 == jx.String && str_r1 == nil && old(string(key)) != "_entry" && vl_r0 != nil ==> ret0 != nil
+//@   ensures[other-labels-untouched] (k != old(logql.Label(key)) || !(nx_r0 == jx.String && str_r1 == nil && old(string(key)) != "_entry" && vl_r0 == nil)) ==> has(set.labels, k) == old(has(set.labels, k)) && same(set.labels[k], old(set.labels[k]))
+
+//@ scope logfmt.go
+
+//@ func (*LogfmtExtractor).Process
+//@   requires set.labels != nil
+//@   capture xs = call(e.extractSome, 0)
+//@   capture xa = call(e.extractAll, 0)
+//@   modifies set.labels[*]
+//@   ensures[line-kept-unchanged] ret0 == line && ret1
+//@   ensures[mode-of-the-stage] xa_called == old(len(e.labels) == 0) && xs_called == old(len(e.labels) != 0)
+//@   ensures[extractor-sees-the-line] (xs_called ==> xs_a0 == line && same(xs_a1, set)) && (xa_called ==> xa_a0 == line && same(xa_a1, set))
+//@   ensures[unparsable-line-is-flagged] (xs_called && xs_r0 != nil) || (xa_called && xa_r0 != nil) ==> has(set.labels, logql.ErrorLabel)
+
+//@ func (*LogfmtExtractor).extractSome
+//@   requires set.labels != nil
+//@   capture key = call(d.Key, 0)
+//@   capture val = call(d.Value, 0)
+//@   capture er = call(d.Err, 0)
+//@   modifies set.labels[*]
+//@   ensures[decoder-error-reported] er_called && same(ret0, er_r0)
+//@   loop 0 modifies set.labels[*]
+//@   loop 1 modifies set.labels[*]
+//@   loop 1 body_ensures[requested-pair-becomes-mapped-label] key_called && (has(e.labels, string(key_r0)) ==> val_called && has(set.labels, e.labels[string(key_r0)]) && same(set.labels[e.labels[string(key_r0)]], pcommon.NewValueStr(string(val_r0))))
+//@   loop 1 body_ensures[unrequested-pair-skipped] !has(e.labels, string(key_r0)) ==> !val_called
+
+//@ func (*LogfmtExtractor).extractAll
+//@   requires set.labels != nil
+//@   capture key = call(d.Key, 0)
+//@   capture val = call(d.Value, 0)
+//@   capture er = call(d.Err, 0)
+//@   modifies set.labels[*]
+//@   ensures[decoder-error-reported] er_called && same(ret0, er_r0)
+//@   loop 0 modifies set.labels[*]
+//@   loop 1 modifies set.labels[*]
+//@   loop 1 body_ensures[pair-becomes-label] key_called && val_called && has(set.labels, logql.Label(key_r0)) && same(set.labels[logql.Label(key_r0)], pcommon.NewValueStr(string(val_r0)))
+
+//@ scope regexp.go
+
+//@ func (*RegexpExtractor).Process
+//@   requires set.labels != nil
+//@   capture fs = call(e.re.FindStringSubmatch, 0)
+//@   modifies set.labels[*]
+//@   ensures[line-kept-unchanged] ret0 == line && ret1 && fs_called && fs_a0 == line
+//@   loop 0 modifies set.labels[*]
+//@   loop 0 invariant rangeindex+1 <= len(fs_r0)
+//@   loop 0 body_ensures[named-group-becomes-label] has(e.mapping, rangeindex) ==> has(set.labels, e.mapping[rangeindex]) && same(set.labels[e.mapping[rangeindex]], pcommon.NewValueStr(fs_r0[rangeindex]))
+
+//@ scope pattern.go
+
+//@ func (*PatternExtractor).Process
+//@   requires set.labels != nil
+//@   capture m = call(logqlpattern.Match, 0)
+//@   modifies set.labels[*]
+//@   ensures[line-kept-unchanged] ret0 == line && ret1
+//@   ensures[pattern-sees-the-line] m_called && m_a1 == line && same(m_a0, e.pattern)
+
+//@ func (*PatternExtractor).Process$1
+//@   requires set.labels != nil
+//@   logical k logql.Label
+//@   modifies set.labels[*]
+//@   ensures[capture-becomes-label] has(set.labels, l) && same(set.labels[l], pcommon.NewValueStr(s))
+//@   ensures[other-labels-untouched] k != l ==> has(set.labels, k) == old(has(set.labels, k)) && same(set.labels[k], old(set.labels[k]))
+
+//@ scope json.go
+
+// json with expressions extracts every expression and every listed label (as a key path); json
+// with labels only extracts exactly those; bare json extracts everything.
+//@ func buildJSONExtractor
+//@   capture ps = call(jsonexpr.Parse, 0)
+//@   modifies nothing
+//@   ensures[is-a-json-extractor] ret1 == nil ==> typeis[*JSONExtractor](ret0)
+//@   ensures[expressions-and-labels-become-paths] ret1 == nil && len(stage.Exprs) > 0 ==> len(as[*JSONExtractor](ret0).labels) == 0 &&
+//@       forall(0, len(stage.Exprs), func(j int) bool { return has(as[*JSONExtractor](ret0).paths, stage.Exprs[j].Label) }) &&
+//@       forall(0, len(stage.Labels), func(j int) bool { return has(as[*JSONExtractor](ret0).paths, stage.Labels[j]) })
+//@   ensures[labels-only] ret1 == nil && len(stage.Exprs) == 0 && len(stage.Labels) > 0 ==> len(as[*JSONExtractor](ret0).paths) == 0 &&
+//@       forall(0, len(stage.Labels), func(j int) bool { return has(as[*JSONExtractor](ret0).labels, stage.Labels[j]) })
+//@   ensures[bare-json-extracts-everything] ret1 == nil && len(stage.Exprs) == 0 && len(stage.Labels) == 0 ==> len(as[*JSONExtractor](ret0).paths) == 0 && len(as[*JSONExtractor](ret0).labels) == 0
+//@   ensures[bad-expression-is-an-error] ps_called && ps_r1 != nil ==> ret1 != nil
+//@   loop 0 modifies e.paths[*]
+//@   loop 0 invariant rangeindex+1 <= len(exprs) && e != nil && fresh(e) && e.paths != nil && fresh(e.paths) && e.labels == nil
+//@   loop 0 invariant forall(0, rangeindex+1, func(j int) bool { return has(e.paths, exprs[j].Label) })
+//@   loop 1 modifies e.paths[*]
+//@   loop 1 invariant rangeindex+1 <= len(labels) && e != nil && fresh(e) && e.paths != nil && fresh(e.paths) && e.labels == nil
+//@   loop 1 invariant forall(0, len(exprs), func(j int) bool { return has(e.paths, exprs[j].Label) })
+//@   loop 1 invariant forall(0, rangeindex+1, func(j int) bool { return has(e.paths, labels[j]) })
+//@   loop 2 modifies e.labels[*]
+//@   loop 2 invariant rangeindex+1 <= len(labels) && e != nil && fresh(e) && e.labels != nil && fresh(e.labels) && e.paths == nil
+//@   loop 2 invariant forall(0, rangeindex+1, func(j int) bool { return has(e.labels, labels[j]) })
+
+//@ scope logfmt.go
+
+// logfmt with labels / expressions extracts exactly those keys, each into its target label; one
+// key cannot feed two targets.
+//@ func buildLogfmtExtractor
+//@   modifies nothing
+//@   ensures[is-a-logfmt-extractor] ret1 == nil ==> typeis[*LogfmtExtractor](ret0)
+//@   ensures[bare-logfmt-extracts-everything] ret1 == nil && len(stage.Exprs) == 0 && len(stage.Labels) == 0 ==> len(as[*LogfmtExtractor](ret0).labels) == 0
+//@   loop 0 modifies e.labels[*]
+//@   loop 0 invariant rangeindex+1 <= len(stage.Labels) && e != nil && fresh(e) && e.labels != nil && fresh(e.labels) && len(e.labels) <= rangeindex+1
+//@   loop 0 body_ensures[label-extracted-under-its-own-name] has(e.labels, string(stage.Labels[rangeindex])) && e.labels[string(stage.Labels[rangeindex])] == stage.Labels[rangeindex]
+//@   loop 1 modifies e.labels[*]
+//@   loop 1 invariant rangeindex+1 <= len(stage.Exprs) && e != nil && fresh(e) && e.labels != nil && fresh(e.labels) && len(e.labels) <= len(stage.Labels) + rangeindex+1
+//@   loop 1 body_ensures[key-extracted-into-target] has(e.labels, key) && e.labels[key] == stage.Exprs[rangeindex].Label
+//@   loop 1 body_ensures[one-target-per-key] len(e.labels) == head(len(e.labels)) + 1
